@@ -93,7 +93,10 @@ def join_rule(facts, ex, res, kind):
                 if rets and waits and min(r["l"][1] for r in rets) < max(w["l"][1] for w in waits):
                     ok = False
             if kind == "omp":
-                creator = [a for a in tbf.ancestors(c) if a.get("k") in ("OMPMasterDirective", "OMPSingleDirective", "OMPMaskedDirective")]
+                creator = [a for a in tbf.ancestors(c) if a.get("k") in ("OMPMasterDirective", "OMPSingleDirective", "OMPMaskedDirective", "OMPSectionDirective")]
+                if not creator:
+                    # the first structured block of `omp sections` needs no `omp section` pragma: it is a section (one thread) of its own
+                    creator = [a for a in tbf.ancestors(c) if a.get("k") == "OMPSectionsDirective"]
                 par = [a for a in tbf.ancestors(c) if a.get("k") == "OMPParallelDirective"]
                 if ok and not creator:
                     res.violation("C03.e.join", tbf.rel(facts.path_of(c)), ex.cls + "::execute", ex._self_call(c) + ":every-thread", c["l"][1],
